@@ -54,6 +54,7 @@ func (mi *MessageInfo) sizePointer(p pointer, opts marshalOptions) (size int) {
 		// zero value to be invalid, while also allowing for a
 		// 0 size to be cached.
 		if size := atomic.LoadInt32(p.Apply(mi.sizecacheOffset).Int32()); size > 0 {
+			verifSizeCacheHit(mi, p, opts, int(size-1))
 			return int(size - 1)
 		}
 	}
@@ -63,6 +64,9 @@ func (mi *MessageInfo) sizePointer(p pointer, opts marshalOptions) (size int) {
 func (mi *MessageInfo) sizePointerSlow(p pointer, opts marshalOptions) (size int) {
 	if flags.ProtoLegacy && mi.isMessageSet {
 		size = sizeMessageSet(mi, p, opts)
+		if verifNoStore() {
+			return size
+		}
 		if mi.sizecacheOffset.IsValid() {
 			atomic.StoreInt32(p.Apply(mi.sizecacheOffset).Int32(), int32(size+1))
 		}
@@ -114,6 +118,9 @@ func (mi *MessageInfo) sizePointerSlow(p pointer, opts marshalOptions) (size int
 		if u := mi.getUnknownBytes(p); u != nil {
 			size += len(*u)
 		}
+	}
+	if verifNoStore() {
+		return size
 	}
 	if mi.sizecacheOffset.IsValid() {
 		if size > (math.MaxInt32 - 1) {
